@@ -55,6 +55,7 @@ MAXDEN = 2 ** 10
 # ---------------------------------------------------------------------------------------------------------------------
 # JSON scopes / expressions:
 #   expr  = ['c', 'num/den'] | ['v', name] | ['+', a, b] | ['-', a, b] | ['*', a, b]
+#         | ['/', a, 'q'] (division by the non-zero constant q) | ['min', a, b] | ['max', a, b]
 #   scope = {'t':'dict','vals':[[name,'q'],..],'vol':[names]} | {'t':'mapped','o':scope,'m':[[name,expr],..]}
 #         | {'t':'range','i':scope,'n':name,'v':'q'} | {'t':'joint','l':[[name,scope],..]}
 
@@ -63,6 +64,8 @@ def e_vars(e):
         return []
     if e[0] == 'v':
         return [e[1]]
+    if e[0] == '/':
+        return e_vars(e[1])
     return e_vars(e[1]) + e_vars(e[2])
 
 
@@ -72,10 +75,19 @@ def e_eval(e, env):
         return F(e[1])
     if e[0] == 'v':
         return env.get(e[1])
+    if e[0] == '/':
+        a = e_eval(e[1], env)
+        if a is None:
+            return None
+        r = a / F(e[2])
+        if abs(r.numerator) > MAXNUM or r.denominator > MAXDEN:
+            raise OverflowError
+        return r
     a, b = e_eval(e[1], env), e_eval(e[2], env)
     if a is None or b is None:
         return None
-    r = a + b if e[0] == '+' else a - b if e[0] == '-' else a * b
+    r = {'+': lambda: a + b, '-': lambda: a - b, '*': lambda: a * b, 'min': lambda: min(a, b),
+         'max': lambda: max(a, b)}[e[0]]()
     if abs(r.numerator) > MAXNUM or r.denominator > MAXDEN:
         raise OverflowError
     return r
@@ -87,7 +99,19 @@ def e_str(e):
         return '(%d)' % f.numerator if f.denominator == 1 else '(%d/%d)' % (f.numerator, f.denominator)
     if e[0] == 'v':
         return e[1]
+    if e[0] == '/':
+        return '(%s / %s)' % (e_str(e[1]), e_str(['c', e[2]]))
+    if e[0] in ('min', 'max'):
+        return '%s(%s, %s)' % (e[0].capitalize(), e_str(e[1]), e_str(e[2]))
     return '(%s %s %s)' % (e_str(e[1]), e[0], e_str(e[2]))
+
+
+def e_ops(e):
+    if e[0] in ('c', 'v'):
+        return set()
+    if e[0] == '/':
+        return {'/'} | e_ops(e[1])
+    return {e[0]} | e_ops(e[1]) | e_ops(e[2])
 
 
 def s_denote(s):
@@ -134,6 +158,17 @@ def s_domain(s):
         d = s_domain(s['i'])
         return d if s['n'] in d else d + [s['n']]
     return [k for k, _ in s['l']]
+
+
+def s_exprs(s):
+    t = s['t']
+    if t == 'dict':
+        return []
+    if t == 'mapped':
+        return [e for _, e in s['m']] + s_exprs(s['o'])
+    if t == 'range':
+        return s_exprs(s['i'])
+    return [e for _, sub in s['l'] for e in s_exprs(sub)]
 
 
 def s_roots(s):
@@ -215,7 +250,9 @@ def rnd_expr(rng, avail, missing_ok):
     def node(d):
         if d == 0 or rng.random() < 0.35:
             return leaf()
-        op = rng.choice(['+', '+', '-', '-', '*'])
+        op = rng.choice(['+', '+', '+', '-', '-', '-', '*', '*', '/', 'min', 'max'])
+        if op == '/':
+            return ['/', node(d - 1), rng.choice(['2', '2', '4', '-2', '8', '1/2'])]
         a, b = node(d - 1), node(d - 1)
         if op == '*':
             # no multiplication by the constant 0 (sympy would cancel the variables)
@@ -223,6 +260,8 @@ def rnd_expr(rng, avail, missing_ok):
                 if x[0] == 'c' and F(x[1]) == 0:
                     x[1] = '2'
         return [op, a, b]
+    if avail and rng.random() < 0.10:
+        return rnd_indep_expr(rng, avail)
     for _ in range(50):
         e = node(rng.choice([0, 1, 1, 2, 2]))
         if not e_cancels(e):
@@ -230,6 +269,23 @@ def rnd_expr(rng, avail, missing_ok):
         pool = list(avail)
         rng.shuffle(pool)
     return ['c', '1']
+
+
+def rnd_indep_expr(rng, avail):
+    """expressions whose VALUE does not depend on the variable x although x occurs in the source text:
+    sympy cancels x when the expression object is built (0*x, x - x: then x is not among Expression.variables and the
+    model receives the expression sympy holds) or keeps it ((x+1)*(x-1) - x*x, Min(x,y)+Max(x,y)-x: syntactic
+    dependence without semantic dependence)"""
+    x = ['v', rng.choice(avail)]
+    y = ['v', rng.choice(avail)] if rng.random() < 0.7 else ['c', str(rnd_value(rng))]
+    k = rng.choice(['zero', 'zero', 'minus', 'minus', 'poly', 'minmax'])
+    if k == 'zero':
+        return ['+', ['*', ['c', '0'], x], y]
+    if k == 'minus':
+        return ['+', ['-', x, x], y]
+    if k == 'poly':
+        return ['+', ['-', ['*', ['+', x, ['c', '1']], ['-', x, ['c', '1']]], ['*', x, x]], y]
+    return ['-', ['+', ['min', x, y], ['max', x, y]], x]
 
 
 def e_cancels(e):
@@ -240,6 +296,8 @@ def e_cancels(e):
         for x in (e[1], e[2]):
             if not e_vars(x) and e_eval(x, {}) == 0:
                 return True
+    if e[0] == '/':
+        return e_cancels(e[1])
     return e_cancels(e[1]) or e_cancels(e[2])
 
 
@@ -394,8 +452,10 @@ def rnd_ops(rng, s, n_ops):
             ops.append(['items'])
         elif r < 0.70:
             ops.append(['as_dict'])
-        elif r < 0.82:
+        elif r < 0.76:
             ops.append(['vol'])
+        elif r < 0.82:
+            ops.append(['volx', rnd_envs(rng, cur)])
         elif r < 0.93:
             roots = s_roots(cur)
             vol = sorted({n for rt in roots for n in rt['vol']})
@@ -421,6 +481,39 @@ def rnd_ops(rng, s, n_ops):
     return ops
 
 
+def merged_roots(s):
+    """the constants of all roots (first root wins on a name clash)"""
+    env = {}
+    for rt in s_roots(s):
+        for k, v in rt['vals']:
+            env.setdefault(k, v)
+    return env
+
+
+def rnd_envs(rng, cur):
+    """environments of constants in which the dependency expressions are evaluated: the current constants, then the
+    current constants with some volatile constants changed (occasionally also a non-volatile one / a missing name)"""
+    base = merged_roots(cur)
+    vol = sorted({n for rt in s_roots(cur) for n in rt['vol']})
+    envs = [dict(base)]
+    for _ in range(rng.choice([1, 2, 2, 3])):
+        env = dict(base)
+        names = [n for n in vol if rng.random() < 0.7] or vol[:1]
+        if rng.random() < 0.08 and base:
+            names = names + [rng.choice(sorted(base))]
+        nc = {n: str(rnd_value(rng)) for n in names}
+        try:
+            if not bounded(s_rebuild(cur, nc)):
+                continue
+        except Exception:
+            continue
+        env.update(nc)
+        if rng.random() < 0.05 and env:
+            env.pop(rng.choice(sorted(env)))
+        envs.append(env)
+    return [sorted(e.items()) for e in envs]
+
+
 def exhaustive_small(rng, frac):
     """all stacks of <= 3 layers over 3 names (fixed values), fixed full history"""
     names = NAMES[:3]
@@ -442,9 +535,13 @@ def exhaustive_small(rng, frac):
                     s = {'t': 'mapped', 'o': s, 'm': [[n, e]]} if kind == 'mapped' else \
                         {'t': 'range', 'i': s, 'n': n, 'v': '7'}
                 vol = root['vol']
-                ops = [['vol'], ['get', names[0]], ['get', names[2]], ['in', names[2]], ['len'], ['iter'],
-                       ['as_dict'], ['get', names[1]], ['keys'], ['items'],
-                       ['change', [[n, '11'] for n in (vol or names[:1])]], ['vol'], ['as_dict']]
+                base = dict(root['vals'])
+                envs = [sorted(base.items()), sorted(dict(base, **{n: '4' for n in vol}).items()),
+                        sorted(dict(base, **{n: str(-3 - 2 * i) for i, n in enumerate(vol)}).items())]
+                ops = [['volx', envs], ['get', names[0]], ['get', names[2]], ['in', names[2]], ['len'], ['iter'],
+                       ['as_dict'], ['get', names[1]], ['keys'], ['items'], ['vol'],
+                       ['change', [[n, '11'] for n in (vol or names[:1])]], ['vol'], ['as_dict'],
+                       ['volx', [sorted(dict(base, **{n: '11' for n in (vol or names[:1])}).items())]]]
                 out.append({'kind': 'hist', 'scope': s, 'ops': ops, 'src': 'exh'})
     return out
 
@@ -502,10 +599,52 @@ def _py_expr(e):
     ex = _EXPR_CACHE.get(s)
     if ex is None:
         ex = ExpressionScalar(s)
-        if set(ex.variables) != set(e_vars(e)):
-            raise RuntimeError('harness: sympy reports variables %r for %s' % (ex.variables, s))
         _EXPR_CACHE[s] = ex
     return ex
+
+
+def sym_to_json(x):
+    """the expression tree sympy holds, as a JSON expression (n-ary + * Min Max folded, x**k unrolled)"""
+    import functools
+    import sympy
+    if x.is_Symbol:
+        return ['v', str(x)]
+    if x.is_Rational:
+        return ['c', str(F(int(x.p), int(x.q)))]
+    if x.is_Float:
+        return ['c', str(F(*float(x).as_integer_ratio()))]
+    if x.is_Add or x.is_Mul or isinstance(x, (sympy.Min, sympy.Max)):
+        op = '+' if x.is_Add else '*' if x.is_Mul else 'min' if isinstance(x, sympy.Min) else 'max'
+        return functools.reduce(lambda a, b: [op, a, b], [sym_to_json(a) for a in x.args])
+    if x.is_Pow and x.exp.is_Integer and 1 <= int(x.exp) <= 4:
+        b = sym_to_json(x.base)
+        return functools.reduce(lambda a, c: ['*', a, c], [b] * int(x.exp))
+    raise ValueError('unsupported sympy node %r' % (x,))
+
+
+_CANON_CACHE = {}
+
+
+def canon(e):
+    """the expression the MODEL receives: e itself when sympy keeps exactly e's variables, otherwise (sympy cancelled a
+    variable while building the expression object, e.g. 0*x or x - x) the tree sympy holds; value-checked against e"""
+    key = e_str(e)
+    c = _CANON_CACHE.get(key)
+    if c is not None:
+        return c
+    ex = _py_expr(e)
+    if set(ex.variables) == set(e_vars(e)):
+        c = e
+    else:
+        c = sym_to_json(ex.underlying_expression)
+        if set(e_vars(c)) != set(ex.variables):
+            raise RuntimeError('harness: sympy reports variables %r for %s' % (ex.variables, key))
+        for k in (1, 2, 3):
+            env = {n: F(3 * i + k, 2) for i, n in enumerate(NAMES)}
+            if e_eval(e, env) != e_eval(c, env):
+                raise RuntimeError('harness: %s and the tree sympy holds differ in value' % key)
+    _CANON_CACHE[key] = c
+    return c
 
 
 def build(s, memo=None):
@@ -563,6 +702,23 @@ def run_impl(case):
         return {'crash': '%s: %s' % (type(e).__name__, str(e)[:200])}
 
 
+def _volx(cur, envs):
+    """get_volatile_parameters(): every dependency expression evaluated in every environment (None = a variable of
+    the expression has no value there)"""
+    from qupulse.expressions import ExpressionVariableMissingException
+    vp = cur.get_volatile_parameters()
+    out = []
+    for name in sorted(vp):
+        vals = []
+        for env in envs:
+            try:
+                vals.append(vlib.frac_json(vp[name].evaluate_in_scope({n: _py_value(v) for n, v in env})))
+            except ExpressionVariableMissingException:
+                vals.append(None)
+        out.append([name, vals])
+    return out
+
+
 def _run_impl(case):
     from qupulse.parameter_scope import NonVolatileChange
     cur_json = case['scope']
@@ -586,6 +742,8 @@ def _run_impl(case):
             out.append(_guard(lambda: _kv(cur.as_dict().items())))
         elif k == 'vol':
             out.append(_guard(lambda: sorted(cur.get_volatile_parameters().keys())))
+        elif k == 'volx':
+            out.append(_guard(lambda: _volx(cur, op[1])))
         elif k == 'change':
             nc = {n: _py_value(v) for n, v in op[1]}
             with warnings.catch_warnings(record=True) as w:
@@ -616,7 +774,10 @@ def g_expr(e):
         return '(EConst %s)' % gQ(F(e[1]))
     if e[0] == 'v':
         return '(EVar %s)' % g_name(e[1])
-    return '(%s %s %s)' % ({'+': 'EAdd', '-': 'ESub', '*': 'EMul'}[e[0]], g_expr(e[1]), g_expr(e[2]))
+    if e[0] == '/':
+        return '(EDivC %s %s)' % (g_expr(e[1]), gQ(F(e[2])))
+    return '(%s %s %s)' % ({'+': 'EAdd', '-': 'ESub', '*': 'EMul', 'min': 'EMin', 'max': 'EMax'}[e[0]],
+                           g_expr(e[1]), g_expr(e[2]))
 
 
 def g_list(xs):
@@ -629,7 +790,7 @@ def g_scope(s):
         return '(SDict %s %s)' % (g_list('(%s, %s)' % (g_name(k), gQ(F(v))) for k, v in s['vals']),
                                   g_list(g_name(n) for n in s['vol']))
     if t == 'mapped':
-        return '(SMapped %s %s)' % (g_scope(s['o']), g_list('(%s, %s)' % (g_name(k), g_expr(e)) for k, e in s['m']))
+        return '(SMapped %s %s)' % (g_scope(s['o']), g_list('(%s, %s)' % (g_name(k), g_expr(canon(e))) for k, e in s['m']))
     if t == 'range':
         return '(SRange %s %s %s)' % (g_scope(s['i']), g_name(s['n']), gQ(F(s['v'])))
     return '(SJoint %s)' % g_list('(%s, %s)' % (g_name(k), g_scope(sub)) for k, sub in s['l'])
@@ -645,6 +806,8 @@ def g_op(op):
         return '(OChange %s)' % g_list('(%s, %s)' % (g_name(n), gQ(F(v))) for n, v in op[1])
     if k == 'eq':
         return '(OEq %s)' % g_scope(op[1])
+    if k == 'volx':
+        return '(OVolX %s)' % g_list(g_list('(%s, %s)' % (g_name(n), gQ(F(v))) for n, v in env) for env in op[1])
     return {'iter': 'OIter', 'len': 'OLen', 'keys': 'OKeys', 'items': 'OItems', 'as_dict': 'OAsDict', 'vol': 'OVol'}[k]
 
 
@@ -666,6 +829,10 @@ def g_obs(op, o):
         return '(BLen %s)' % g_result(o, gZ)
     if k in ('items', 'as_dict'):
         return '(BItems %s)' % g_result(o, lambda kv: g_list('(%s, %s)' % (g_name(n), gQ(F(v))) for n, v in kv))
+    if k == 'volx':
+        return '(BVolX %s)' % g_result(o, lambda kv: g_list(
+            '(%s, %s)' % (g_name(n), g_list('None' if v is None else '(Some %s)' % gQ(F(v)) for v in vs))
+            for n, vs in kv))
     if k == 'change':
         return '(BChange %s %s %s)' % tuple(gbool(b) for b in o['ok'])
     if k == 'eq':
@@ -699,12 +866,29 @@ def histogram_keys(case, obs):
     except OverflowError:
         wf = False
     keys.append('denotes' if wf else 'does-not-denote')
+    for ex in s_exprs(s):
+        ops_ = e_ops(ex)
+        if '/' in ops_:
+            keys.append('expr:div')
+        if ops_ & {'min', 'max'}:
+            keys.append('expr:minmax')
+        try:
+            if canon(ex) != ex:
+                keys.append('expr:sympy-cancels-variable')
+        except Exception:
+            pass
+        if len(e_vars(ex)) != len(set(e_vars(ex))):
+            keys.append('expr:variable-repeated')
     if 'obs' in obs:
         for op, o in zip(case['ops'], obs['obs']):
             if 'err' in o:
                 keys.append('err:%s:%s' % (op[0], o['err']))
             if op[0] == 'vol' and o.get('ok'):
                 keys.append('vol-nonempty')
+            if op[0] == 'volx' and o.get('ok'):
+                keys.append('volx-nonempty')
+                if any(e[0] != 'v' for e in s_exprs(s)):
+                    keys.append('volx-through-mapping')
             if op[0] == 'eq':
                 keys.append('eq:%s:%s' % (op[2], o.get('ok', ['?'])[0]))
             if op[0] == 'change' and 'ok' in o and o['ok'][0]:
